@@ -61,6 +61,12 @@ C_PREP = clause(UPR, 'post:replace_keeps', ['C14', 'C11'], 'P')
 C_SREP = clause(USR, 'post:replace_keeps', ['C14', 'C11'], 'B')
 C_INIT = clause(USI, 'post:inherited_state', ['C14'], 'B')
 
+C_PLAIN = clause('_signatures.UpgradedSignature.__init__', 'post:plain_parameters_upgraded', ['C14'], 'B',
+                 'plain inspect.Parameter objects handed to the constructor or to replace(parameters=...) come out as upgraded parameters '
+                 'carrying the same data - every one of them, so that whatever sigtools returns answers replace() with the upgraded type')
+C_NOW = clause('_signatures.UpgradedAnnotation.source_value', 'post:evaluated_when_asked', ['C11'], 'P',
+               'a postponed annotation denotes what its expression evaluates to in the globals of its function AT THE TIME source_value() is '
+               'called (module globals are mutable: a placeholder replaced later, a configuration switch) - asked twice, evaluated twice')
 C_EVAL = clause('_signatures.UpgradedSignature.evaluated', 'post:denoted_objects', ['C11', 'C14'], 'B')
 
 OTHERS = ('self', 'upgraded', 'plain_same', 'plain_sym', 'none', 'foreign')
@@ -177,6 +183,35 @@ def make_runner(unit, kind=None, shape=None, other='self', want=None):
                 try:
                     r.value = I.instantiate(US, [list(info.params)], [('return_annotation', ra), ('sources', src),
                                                                      ('upgraded_return_annotation', info.sig._d['upgraded_return_annotation'])])
+                    r.outcome = 'return'
+                except PyExc as e:
+                    r.outcome, r.exc = 'raise', e
+            elif unit == 'ua_twice':
+                UAcls = m.ns['UpgradedAnnotation']
+                raw = SymVal(z3.Const('raw_annotation', ValS))
+                fn = info.funcs[0]
+                env['raw'], env['fn'] = raw, fn
+                sym.EPOCH[0] = 0
+                try:
+                    ua = I.call(I.getattr_(UAcls, 'upgrade'), [raw, fn, 'a'], [])
+                    v1 = I.call(I.getattr_(ua, 'source_value'), [], [])
+                    sym.EPOCH[0] = 1          # the module rebinds its globals
+                    v2 = I.call(I.getattr_(ua, 'source_value'), [], [])
+                    env['vals'] = (v1, v2)
+                    r.outcome, r.value = 'return', ua
+                except PyExc as e:
+                    r.outcome, r.exc = 'raise', e
+                finally:
+                    sym.EPOCH[0] = 0
+            elif unit in ('sig_init_plain', 'sig_replace_plain'):
+                # the deprecated-but-supported route: plain inspect.Parameter objects handed to the constructor / to replace
+                plain = list(world.plain_signature(I, info)._d['_parameters'].plist)
+                env['plain'] = plain
+                try:
+                    if unit == 'sig_init_plain':
+                        r.value = I.instantiate(US, [plain], [('return_annotation', info.sig._d['_return_annotation'])])
+                    else:
+                        r.value = I.call(I.getattr_(info.sig, 'replace'), [], [('parameters', plain)])
                     r.outcome = 'return'
                 except PyExc as e:
                     r.outcome, r.exc = 'raise', e
@@ -297,6 +332,38 @@ def vcs(env, want):
             out.append(VC(C_SREP.full + ':inspect_part', [], z3.And(z3.BoolVal(all(same) and len(same) == len(s._d['_parameters'].plist)),
                                                                      _sig_basis_eq(s, t)), C_SREP.props))
         return out
+    if unit == 'ua_twice':
+        if not on(C_NOW) or r.outcome == 'raise':
+            return out
+        v1, v2 = env['vals']
+        raw, fn = env['raw'], env['fn']
+        t = lambda v: v.t if isinstance(v, SymVal) else None
+        post = fn.postponed
+        ok = t(v1) is not None and t(v2) is not None
+        goal = z3.BoolVal(False)
+        if ok:
+            goal = z3.And(t(v1) == z3.If(post, sym.EVALIN(raw.t, fn.t), raw.t), t(v2) == z3.If(post, sym.EVALIN_AT(raw.t, fn.t, z3.IntVal(1)), raw.t))
+        out.append(VC(C_NOW.full, [], goal, C_NOW.props))
+        return out
+    if unit in ('sig_init_plain', 'sig_replace_plain'):
+        if not on(C_PLAIN):
+            return out
+        if r.outcome == 'raise':
+            out.append(VC(C_PLAIN.full + ':no_exception:' + r.exc.typname, [], z3.BoolVal(False), C_PLAIN.props))
+            return out
+        t = r.value
+        ps = t._d['_parameters'].plist if isinstance(t, Inst) and US in t._cls.mro and '_parameters' in t._d else None
+        ok = ps is not None and len(ps) == len(env['plain'])
+        out.append(VC(C_PLAIN.full + ':upgraded_signature', [], z3.BoolVal(bool(ok)), C_PLAIN.props))
+        if ok:
+            for q, p in zip(ps, env['plain']):
+                up = isinstance(q, Inst) and UP in q._cls.mro
+                goal = z3.BoolVal(bool(up))
+                if up:
+                    goal = z3.And(z3.BoolVal(q._d['_kind'] == p._d['_kind'] and q._d['_name'] is p._d['_name']),
+                                  *[z3.And(q._d[k].has == p._d[k].has, z3.Implies(p._d[k].has, q._d[k].val == p._d[k].val)) for k in ('_default', '_annotation')])
+                out.append(VC(C_PLAIN.full + ':' + (p._d.get('_vf_tag') or '?'), [], goal, C_PLAIN.props))
+        return out
     if unit == 'sig_evaluated':
         if not on(C_EVAL) or r.outcome == 'raise':
             return out        # (evaluating an annotation runs user code: whatever it raises propagates)
@@ -409,6 +476,26 @@ def replay(env, vc, model):
         hit = [b for b in bad if b[0] == key]
         return dict(status='reproduced' if hit else ('other-violation' if bad else 'not-reproduced'), op='dropin:' + unit, other=other,
                     me=str(me), compared_with=repr(o), violated=[list(b) for b in (hit or bad)])
+    if unit == 'ua_twice':
+        ns = {}
+        exec(compile('from __future__ import annotations\nclass First: pass\nclass Second: pass\nTarget = First\ndef f(a: Target): pass\n', '<vf-rebind>', 'exec'), ns)
+        ua = _signatures.signature(ns['f']).parameters['a'].upgraded_annotation
+        v1 = ua.source_value()
+        ns['Target'] = ns['Second']
+        v2 = ua.source_value()
+        if not (v1 is ns['First'] and v2 is ns['Second']):
+            bad.append(('post:evaluated_when_asked', 'source_value() before / after the module rebinds Target: %r / %r' % (v1, v2)))
+        return dict(status='reproduced' if bad else 'not-reproduced', op='dropin:ua_twice', violated=[list(b) for b in bad])
+    if unit in ('sig_init_plain', 'sig_replace_plain'):
+        plain = list(inspect.signature(list(sig.sources['+depths'])[0]).parameters.values())
+        try:
+            res = _signatures.UpgradedSignature(plain) if unit == 'sig_init_plain' else sig.replace(parameters=plain)
+            for q in res.parameters.values():
+                if not isinstance(q, _signatures.UpgradedParameter):
+                    bad.append(('post:plain_parameters_upgraded', 'parameter %s of %s is a plain inspect.Parameter' % (q.name, res)))
+        except Exception as e:
+            bad.append(('post:plain_parameters_upgraded', 'raises %r' % (e,)))
+        return dict(status='reproduced' if bad else 'not-reproduced', op='dropin:' + unit, parameters=[str(p) for p in plain], violated=[list(b) for b in bad])
     if unit == 'sig_evaluated':
         import sigtools
         s2 = conc.build_sig(env['info2'])
